@@ -96,12 +96,17 @@ fn gen_case(t: &mut Tape) -> E2Case {
     }
 
     // ---- counterpart: same parameters, possibly an extra lifetime that only the counterpart has ------
-    let extra_lt = t.chance(1, 4);
+    let extra_lt = t.chance(1, 3);
+    let extra_twice = extra_lt && t.chance(1, 3);
     if extra_lt {
         labels.push("counterpart-only-lifetime".into());
     }
-    let d_decl: Vec<String> = lts.iter().cloned().chain(if extra_lt { vec!["'x".to_string()] } else { vec![] }).chain(rest.iter().map(|x| x.0.split('=').next().unwrap().trim().to_string())).collect();
-    let d_args: Vec<String> = lts.iter().cloned().chain(if extra_lt { vec!["'x".to_string()] } else { vec![] }).chain(args.iter().skip(lts.len()).cloned()).collect();
+    if extra_twice {
+        labels.push("counterpart-only-lifetime-used-twice".into());
+    }
+    // the counterpart declares 'x (and 'y); its path in the instruction passes 'x (and 'x again)
+    let d_decl: Vec<String> = lts.iter().cloned().chain(if extra_twice { vec!["'x".to_string(), "'y".to_string()] } else if extra_lt { vec!["'x".to_string()] } else { vec![] }).chain(rest.iter().map(|x| x.0.split('=').next().unwrap().trim().to_string())).collect();
+    let d_args: Vec<String> = lts.iter().cloned().chain(if extra_twice { vec!["'x".to_string(), "'x".to_string()] } else if extra_lt { vec!["'x".to_string()] } else { vec![] }).chain(args.iter().skip(lts.len()).cloned()).collect();
     let turbofish = t.chance(1, 4) && !d_args.is_empty();
     let d_path = |name: &str| format!("{}{}{}", name, if turbofish { "::" } else { "" }, angle(&d_args));
 
@@ -123,6 +128,17 @@ fn gen_case(t: &mut Tape) -> E2Case {
     if !any {
         cells[0][FR] = true;
     }
+    // every fifth case: owned kinds only for D, so that a second counterpart with a dedicated where clause can be added
+    if t.chance(1, 5) {
+        for f in 0..2 {
+            cells[f][FR] = false;
+            cells[f][RI] = false;
+            cells[f][RIE] = false;
+        }
+        if !(0..2).any(|f| cells[f].iter().any(|x| *x)) {
+            cells[0][FO] = true;
+        }
+    }
     let has_ref = (0..2).any(|f| cells[f][FR] || cells[f][RI] || cells[f][RIE]);
     // members that are not Copy need ~.clone() in by-ref kinds, which needs `T: Clone`
     let need_clone: Vec<String> = tys.iter().filter(|p| p.bound.is_none() && has_ref && fields.iter().any(|f| f.2 && f.1.split(|c: char| !c.is_alphanumeric()).any(|w| w == p.name))).map(|p| p.name.clone()).collect();
@@ -139,7 +155,7 @@ fn gen_case(t: &mut Tape) -> E2Case {
             let _ = write!(s, "{}pub {}: {}, ", fattrs(i), f.0, f.1);
         }
         if extra_field {
-            s.push_str("pub xlt: ::core::marker::PhantomData<&'x ()>, ");
+            s.push_str(if params.iter().any(|p| p == "'y") { "pub xlt: ::core::marker::PhantomData<(&'x (), &'y ())>, " } else { "pub xlt: ::core::marker::PhantomData<&'x ()>, " });
         }
         s.push('}');
         s
@@ -172,7 +188,22 @@ fn gen_case(t: &mut Tape) -> E2Case {
     if !where_preds.is_empty() {
         let _ = write!(type_attrs, "#[where_clause({}{})]\n", if dedicated_where { format!("{}| ", d_path("D")) } else { String::new() }, where_preds.join(", "));
     }
-    let fattr = |i: usize| -> String { if fields[i].2 && has_ref { "#[map_ref(~.clone())] ".to_string() } else { String::new() } };
+    // second counterpart D3 (same definition as D): by-reference From that has to clone, justified by a *dedicated*
+    // where clause, while the default where clause (for D) says something weaker; either order
+    let second = !extra_lt && !has_ref && where_preds.is_empty() && tys.iter().any(|p| p.bound.is_none()) && fields.iter().any(|f| f.2);
+    if second {
+        labels.push("second-counterpart-dedicated-where".into());
+        let unb: Vec<String> = tys.iter().filter(|p| p.bound.is_none()).map(|p| p.name.clone()).collect();
+        let default_w = format!("#[where_clause({})]\n", unb.iter().map(|n| format!("{}: Sized", n)).collect::<Vec<_>>().join(", "));
+        let dedicated_w = format!("#[where_clause({}| {})]\n", d_path("D3"), unb.iter().map(|n| format!("{}: Clone", n)).collect::<Vec<_>>().join(", "));
+        let instr = format!("#[from_ref({})]\n", d_path("D3"));
+        let mut parts = vec![default_w, dedicated_w, instr];
+        t.shuffle(&mut parts);
+        for p in parts {
+            type_attrs.push_str(&p);
+        }
+    }
+    let fattr = |i: usize| -> String { if fields[i].2 && (has_ref || second) { "#[from_ref(~.clone())] ".to_string().replace("from_ref", if has_ref { "map_ref" } else { "from_ref" }) } else { String::new() } };
     let derive_input = format!("{}{}", type_attrs, struct_def("S", &decl, &fattr, false));
 
     // ---- harness -----------------------------------------------------------------------------------
@@ -181,9 +212,13 @@ fn gen_case(t: &mut Tape) -> E2Case {
     let none = |_: usize| String::new();
     let _ = write!(h, "{}\n{}\n", struct_def("S", &decl, &none, false), struct_def("D", &d_decl, &none, extra_lt));
     let _ = write!(h, "{}\n{}\n", struct_def("S2", &decl, &none, false), struct_def("D2", &d_decl, &none, extra_lt));
+    if second {
+        let _ = write!(h, "{}\n", struct_def("D3", &d_decl, &none, false));
+    }
     if extra_lt {
         // the counterpart has a member S does not know: Into takes it from ..d_default()
-        let body = |name: &str| format!("pub fn {}_default<{}>() -> {}{} {{ unimplemented!() }}\n", name.to_lowercase(), d_decl.join(", "), name, angle(&d_args));
+        let decl_as_args: Vec<String> = d_decl.iter().map(|p| p.split(':').next().unwrap().trim().trim_start_matches("const ").to_string()).collect();
+        let body = |name: &str| format!("pub fn {}_default<{}>() -> {}{} {{ unimplemented!() }}\n", name.to_lowercase(), d_decl.join(", "), name, angle(&decl_as_args));
         h.push_str(&body("D"));
         h.push_str(&body("D2"));
     }
